@@ -566,8 +566,7 @@ template <class T,int index>
 static FixedArray<T>
 QuatArray_get(FixedArray<IMATH_NAMESPACE::Quat<T> > &qa)
 {
-    return FixedArray<T>(&(qa.unchecked_index(0).r) + index,
-                         qa.len(), 4*qa.stride(), qa.handle(), qa.writable());
+    return memberView (qa, &(qa.unchecked_direct_index(0).r) + index, 4);
 }
 
 template <class T>
